@@ -13,10 +13,19 @@ type GCase struct {
 	G       *Grammar `json:"g"`
 	In      string   `json:"in"`
 	MemoAll bool     `json:"memoAll"` // also memoize the non-recursive rules
+	PreLen  int      `json:"preLen,omitempty"` // > 0: the parsed file follows a file of that length (used by C02)
 }
 
 func (c *GCase) Describe() string {
-	return fmt.Sprintf("grammar: %s input: %q memoAll=%v", c.G, c.In, c.MemoAll)
+	in := c.In
+	if len(in) > 80 {
+		in = fmt.Sprintf("%s...(%d bytes)", in[:60], len(in))
+	}
+	s := fmt.Sprintf("grammar: %s input: %q memoAll=%v", c.G, in, c.MemoAll)
+	if c.PreLen > 0 {
+		s += fmt.Sprintf(" after a file of %d bytes", c.PreLen)
+	}
+	return s
 }
 
 func (c *GCase) memoRules() []bool {
